@@ -39,7 +39,8 @@ For each change i = 1..{n} create the directory {wt}/_out/m<i>/ containing:
   - meta.json  : {{"property": "{pid}", "what_it_breaks": "...", "needs_to_manifest": "...", "files_changed": [...],
                   "tests_passed_with_patch": <int>}}
 After finishing each change, revert the working tree (git checkout -- . ; keep _out/, which is untracked) so the
-patches are independent of one another. You must yourself verify, for every change: (1) the full test-suite result
+patches are independent of one another. NEVER use `git stash` (the stash is shared by all worktrees of the
+repository and other agents work in sibling worktrees); use `git diff > file`, `git checkout -- .` and `git apply file`. You must yourself verify, for every change: (1) the full test-suite result
 with the patch applied equals the baseline (1061 passed, the same single failure); (2) demo.py fails with the patch
 and passes without it. Discard candidates that any existing test catches and try another one.
 Finish with a short summary listing, per change, the file/function changed, what is needed to trigger it, and the
